@@ -157,10 +157,10 @@ def _run(args) -> Dict[str, Any]:
 
 def _explore(args) -> Dict[str, Any]:
     """exhaustive enumeration (stateless, depth first) of the interleavings of one recorder script with the writer, on the real code"""
-    script, variant, max_runs = args
+    script, variant, max_runs, stack = args
     from .. import logger_drv as L
 
-    out, stack = [], [[]]
+    out, stack = [], list(stack)
     while stack and len(out) < max_runs:
         res, alts = L.run_schedule(script, stack.pop(), fmts=tuple(variant["fmts"]), intervals=tuple(variant["intervals"]),
                                    typemap=variant["typemap"])
@@ -218,7 +218,7 @@ def _validate(d: str, results: List[Dict[str, Any]], order: str) -> Dict[int, di
     jobs = []
     for (i1, i2), items in groups.items():
         cfg = _cfg(d, f"trace_{i1}_{i2}.cfg", spec="TSpec", msgs=1000, none=1000, ticks=1000, pause=1000, order=order, i1=i1, i2=i2)
-        n = max(1, min(8, len(items) // 120))
+        n = max(1, min(8, len(items) // 120), -(-len(items) // 8000))
         for k in range(n):
             jobs.append((cfg, items[k::n]))
 
@@ -261,7 +261,9 @@ def _signature(clause: str, verdict: dict, res: Dict[str, Any]) -> str:
 
 
 def _assess(results: List[Dict[str, Any]], verdicts: Dict[int, dict]):
-    viol, drift, seen = [], [], set()
+    drift: List[int] = []
+    best: Dict[str, Tuple[int, dict]] = {}
+    count: Dict[str, int] = defaultdict(int)
     for r in results:
         v = verdicts[r["tid"]]
         clauses = sorted({c for _, c in v["props"] if c != "drift"})
@@ -275,13 +277,14 @@ def _assess(results: List[Dict[str, Any]], verdicts: Dict[int, dict]):
                   "expected": _expected(r), "lostAt": v.get("lostAt", ""), "writer_order": r["order"],
                   "sync_trace": [f"{e['th']} {e['a'] if e['a'] != 'Op' else e['op'] + ' ' + e['ev']}"
                                  + (f" {e['t']}" if e['t'] else "") + (" ->T" if e["res"] else "") for e in r["ev"][:-1]]}
-            if sig in seen and len(viol) > 60:
-                continue
-            seen.add(sig)
-            viol.append({"signature": sig, "replay": rp, "_len": len(r["behaviour"])})
-    viol.sort(key=lambda x: (x["signature"], x["_len"]))  # the shortest schedule of a signature is the one the CLI stores first
+            n = len(r["behaviour"])
+            if sig not in best or n < best[sig][0]:
+                best[sig] = (n, {"signature": sig, "replay": rp})
+            count[sig] += 1
+    # one violation per signature: the shortest schedule that shows it (the CLI stores one replay file per signature)
+    viol = [best[sig][1] for sig in sorted(best)]
     for x in viol:
-        x.pop("_len")
+        x["replay"]["runs_with_this_signature"] = count[x["signature"]]
     return viol, drift
 
 
@@ -296,54 +299,75 @@ def run(tier: str, seed: int) -> Dict[str, Any]:
     rng = random.Random(seed * 7919 + 17)
     d = tempfile.mkdtemp(prefix="c17_")
     notes: List[str] = []
+    import time as _time
+    t0, phases = _time.time(), {}
+
+    def lap(name):
+        nonlocal t0
+        phases[name] = round(_time.time() - t0, 1)
+        t0 = _time.time()
     try:
         order = _pool_map(_probe, [None])[0]
         model_order = order if order in ORDERS else ORDERS[0]
         if order not in ORDERS:
             notes.append(f"writer handshake order observed on the code is '{order}': the model uses {model_order}; expect drift")
 
-        # 1. model checking, both writer orders
-        bound = dict(msgs=3, none=1, ticks=2, pause=1, dts="{16}") if q else dict(msgs=4, none=1, ticks=3, pause=1, dts="{16, 40}")
-        mc: Dict[str, Dict[str, Any]] = {}
-        for o in ORDERS:
-            r = engine.model_check("DataLogger", _cfg(d, f"mc_{o}.cfg", order=o, checks=SAFETY, **bound), timeout=2400)
-            mc[o] = {"violation": r["violation"], "states": r.get("distinct", 0), "transitions": r.get("states", 0), "depth": r.get("depth", 0),
-                     "complete": r["violation"] is None}
-        lb = dict(msgs=2, none=1, ticks=2, pause=1, dts="{16}") if q else dict(msgs=3, none=1, ticks=2, pause=1, dts="{16}")
-        live: Dict[str, Any] = {}
-        for o in ORDERS:
-            r = engine.model_check("DataLogger", _cfg(d, f"live_{o}.cfg", spec="FairSpec", order=o, checks=LIVENESS, **lb), timeout=2400)
-            live[o] = {"violation": r["violation"], "states": r.get("distinct", 0)}
-        for o in ORDERS:
-            if mc[o]["violation"] or live[o]["violation"]:
-                notes.append(f"specification with WriterOrder={o}{' (the order the code has)' if o == order else ''}: TLC finds "
-                             f"{mc[o]['violation'] or live[o]['violation']} violated")
+        # 1. + 2. all TLC jobs run concurrently: model checking (both writer orders, safety and liveness), the state graph exports
+        #          of the small bounds (-> transition cover) and the simulation of a larger bound
+        from concurrent.futures import ThreadPoolExecutor
 
-        # 2. behaviours: transition cover of the complete state graph of small bounds + simulation of a larger one
+        def mcjob(cfg, workers):
+            r = tlc.run_tlc("DataLogger", cfg, workers=workers, timeout=2400)
+            if r["error"] or (not r.get("finished") and r["violation"] is None):
+                raise tlc.TlcError(f"TLC failed on {cfg}: {r['error']}\n{r['out'][-1500:]}")
+            return r
+
+        bound = dict(msgs=3, none=1, ticks=2, pause=1, dts="{16}") if q else dict(msgs=4, none=1, ticks=3, pause=1, dts="{16, 40}")
+        lb = dict(msgs=2, none=1, ticks=2, pause=1, dts="{16}") if q else dict(msgs=3, none=1, ticks=2, pause=1, dts="{16}")
         plans = [dict(msgs=2, none=0, ticks=2, pause=0, dts="{16}", i1=30, i2=0)]
         if q:
             plans.append(dict(msgs=1, none=1, ticks=2, pause=1, dts="{16}", i1=30, i2=0))
         else:
             plans.append(dict(msgs=2, none=1, ticks=2, pause=1, dts="{16}", i1=30, i2=0))
             plans.append(dict(msgs=3, none=0, ticks=3, pause=0, dts="{16}", i1=30, i2=45))
+        sim = dict(msgs=5, none=2, ticks=4, pause=2, dts="{16, 40}", i1=30, i2=45)
+        with ThreadPoolExecutor(max_workers=8) as ex:
+            f_mc = {o: ex.submit(mcjob, _cfg(d, f"mc_{o}.cfg", order=o, checks=SAFETY, **bound), 4 if q else 8) for o in ORDERS}
+            f_live = {o: ex.submit(mcjob, _cfg(d, f"live_{o}.cfg", spec="FairSpec", order=o, checks=LIVENESS, **lb), 2) for o in ORDERS}
+            f_graph = [ex.submit(export_graph, d, f"graph{k}.cfg", random.Random(seed * 31 + k), order=model_order, **pl)
+                       for k, pl in enumerate(plans)]
+            f_sim = ex.submit(engine.gen_behaviours, "DataLogger",
+                              _cfg(d, "sim.cfg", order=model_order, gen="TRUE", checks="INVARIANT GenInv", **sim),
+                              num=400 if q else 4000, depth=150, seed=seed + 5, timeout=900)
+            mc: Dict[str, Dict[str, Any]] = {}
+            live: Dict[str, Any] = {}
+            for o in ORDERS:
+                r = f_mc[o].result()
+                mc[o] = {"violation": r["violation"], "states": r.get("distinct", 0), "transitions": r.get("states", 0),
+                         "depth": r.get("depth", 0), "complete": r["violation"] is None}
+                r = f_live[o].result()
+                live[o] = {"violation": r["violation"], "states": r.get("distinct", 0)}
+            graphs = [f.result() for f in f_graph]
+            sims = f_sim.result()
+        for o in ORDERS:
+            if mc[o]["violation"] or live[o]["violation"]:
+                notes.append(f"specification with WriterOrder={o}{' (the order the code has)' if o == order else ''}: TLC finds "
+                             f"{mc[o]['violation'] or live[o]['violation']} violated")
         work: List[Tuple[List[dict], Tuple[int, int], str]] = []
         gstats = []
         plan_behs: List[List[List[dict]]] = []
-        for k, pl in enumerate(plans):
-            behs, st = export_graph(d, f"graph{k}.cfg", rng, order=model_order, **pl)
+        for pl, (behs, st) in zip(plans, graphs):
             st["bound"] = {k2: pl[k2] for k2 in ("msgs", "none", "ticks", "pause", "dts", "i1", "i2")}
             gstats.append(st)
             plan_behs.append(behs)
             work += [(b, (pl["i1"], pl["i2"]), "cover") for b in behs]
-        sim = dict(msgs=5, none=2, ticks=4, pause=2, dts="{16, 40}", i1=30, i2=45)
-        sims = engine.gen_behaviours("DataLogger", _cfg(d, "sim.cfg", order=model_order, gen="TRUE", checks="INVARIANT GenInv", **sim),
-                                     num=400 if q else 6000, depth=150, seed=seed + 5, timeout=900)
         work += [(b, (sim["i1"], sim["i2"]), "simulate") for b in sims]
 
+        lap("tlc_model_checking_and_generation_s")
         # 3. replay on the real code (spec-driven schedules)
         jobs = []
         for i, (b, iv, src) in enumerate(work):
-            pairs = [FORMAT_PAIRS[i % len(FORMAT_PAIRS)]] if q else FORMAT_PAIRS[:4] + [FORMAT_PAIRS[4 + i % 2]]
+            pairs = [FORMAT_PAIRS[(i + j) % len(FORMAT_PAIRS)] for j in range(1 if q else 3)]
             for j, fm in enumerate(pairs):
                 st = sorted(rng.sample(range(len(b)), min(3, len(b)))) if (i + j) % 3 == 0 else None
                 jobs.append((0, b, {"fmts": list(fm), "intervals": list(iv), "typemap": "sig" if (i + j) % 4 == 3 else "std",
@@ -352,24 +376,43 @@ def run(tier: str, seed: int) -> Dict[str, Any]:
         for r, (_, b, var) in zip(results, jobs):
             r["behaviour"], r["variant"] = b, var
 
+        lap("replay_spec_driven_s")
         # 3b. code-driven schedules: the recorder scripts of the small graph, EVERY interleaving with the writer (stateless
         #     depth-first enumeration on the real code); random interleavings of the scripts of the simulated behaviours
         scripts = _scripts(plan_behs[0])
         cap = 1500 if q else 40000
         ejobs = [(sc, {"fmts": list(FORMAT_PAIRS[i % 4]), "intervals": [plans[0]["i1"], plans[0]["i2"]], "typemap": "std" if i % 3 else "sig",
                        "stutters": None, "source": "explore"}, cap) for i, sc in enumerate(scripts)]
-        ejobs.sort(key=lambda j: -len(j[0]))
-        explored = _pool_map(_explore, ejobs, chunksize=1)
-        truncated = 0
-        for ex, (sc, var, _) in zip(explored, ejobs):
-            truncated += bool(ex["truncated"])
+        if not q:   # deeper: a sample of the recorder scripts of the largest graph, interleavings enumerated up to a cap
+            deep = _scripts(plan_behs[-1])
+            rng.shuffle(deep)
+            ejobs += [(sc, {"fmts": list(FORMAT_PAIRS[i % 4]), "intervals": [plans[-1]["i1"], plans[-1]["i2"]], "typemap": "std",
+                            "stutters": None, "source": "explore-deep"}, 2000) for i, sc in enumerate(deep[:40])]
+        # the root schedule of every script is run here; each alternative it leaves open is a disjoint subtree = one pool job
+        from .. import logger_drv as L
+        sub, roots = [], []
+        with engine.Quiet():
+            for sc, var, cp in ejobs:
+                res, alts = L.run_schedule(sc, [], fmts=tuple(var["fmts"]), intervals=tuple(var["intervals"]), typemap=var["typemap"])
+                res["judge"] = L.judge(res)
+                res["behaviour"], res["variant"] = res["steps"], var
+                roots.append(res)
+                sub += [(sc, var, cp, [a]) for a in alts]
+        results += roots
+        sub.sort(key=lambda j: len(j[3][0]))   # short prefixes = large subtrees first
+        explored = _pool_map(_explore, sub, chunksize=1)
+        truncated_scripts = set()
+        for ex, (sc, var, _, _) in zip(explored, sub):
+            if ex["truncated"] and var["source"] == "explore":
+                truncated_scripts.add(json.dumps(sc, sort_keys=True))
             for r in ex["runs"]:
                 r["behaviour"], r["variant"] = r["steps"], var
                 results.append(r)
+        truncated = len(truncated_scripts)
         fscripts = _scripts(sims)
         fjobs = []
         for i, sc in enumerate(fscripts):
-            for k in range(2 if q else 8):
+            for k in range(2 if q else 4):
                 fjobs.append((sc, {"fmts": list(FORMAT_PAIRS[(i + k) % len(FORMAT_PAIRS)]), "intervals": [sim["i1"], sim["i2"]],
                                    "typemap": "sig" if (i + k) % 4 == 3 else "std", "stutters": None, "source": "fuzz"},
                               seed * 100003 + i * 17 + k))
@@ -385,8 +428,10 @@ def run(tier: str, seed: int) -> Dict[str, Any]:
         if orders and orders != [order]:
             raise tlc.TlcError(f"writer order differs between runs: {orders} vs probe {order}")
 
+        lap("code_driven_schedules_s")
         # 4. every run validated by TLC
         verdicts = _validate(d, results, model_order)
+        lap("trace_validation_s")
     finally:
         shutil.rmtree(d, ignore_errors=True)
     viol, drift = _assess(results, verdicts)
@@ -412,13 +457,17 @@ def run(tier: str, seed: int) -> Dict[str, Any]:
            "runs_stop_waited": sum(1 for r in results if any(e["th"] == "R" and e["op"] == "wait" for e in r["ev"])),
            "sync_steps_validated": sum(len(r["ev"]) - 1 for r in results), "drift_runs": len(drift),
            "runs_with_failing_clause": len({r["tid"] for r in results if r["judge"]["clauses"]}),
+           "runs_by_violation_signature": {x["signature"]: x["replay"]["runs_with_this_signature"] for x in viol},
            "samples": [{"behaviour": sample_run["behaviour"], "variant": sample_run["variant"], "files": sample_run["files"]},
                        {"trace_events": sample_run["ev"][-4:]}],
-           "exhaustive": False,
-           "explanation": "DataLogger.tla model checked for both writer statement orders (states/transitions: the complete run of the order "
-                          "that is safe if the code's order is not); every transition of the complete state graph of the small bounds "
-                          "(state_graphs_covered) and TLC -simulate behaviours of a larger bound executed on the real DataCollection with "
-                          "BatonEvent/BatonThread/virtual clock, files read back per formatter, each run validated by DataLogger_Trace"}
+           "phase_wall_s": phases, "exhaustive": False,
+           "explanation": "DataLogger.tla model checked for both writer statement orders (states/transitions = the complete run: of the "
+                          "order the code has if it is safe, otherwise of the other order; see model_check_by_writer_order). Executed on the "
+                          "real DataCollection with BatonEvent/BatonThread/virtual clock: (cover) a path cover of every transition of the "
+                          "complete state graphs of the small bounds, (simulate) TLC -simulate behaviours of a larger bound, (explore) EVERY "
+                          "interleaving of recorder and writer for each recorder script of the smallest graph, enumerated on the code itself, "
+                          "(fuzz) random interleavings of the simulated scripts. Files read back per formatter with the package's readers; "
+                          "each run's synchronisation trace and files validated by TLC (DataLogger_Trace)"}
     return {"level": "model_checking", "coverage": cov, "violations": viol, "notes": notes,
             "assumptions": ["interleaving granularity = synchronisation operations (Event.set/clear/is_set/wait, Thread.join); code between "
                             "two operations of a thread is atomic", "a wait(timeout) that is scheduled while its event is down returns False; "
